@@ -8,6 +8,8 @@ var Plans = map[string][]PlanItem{
 	"C02": {{Scen: "world", Quick: 4000, Thorough: 250000}},
 	"C03": {{Scen: "world", Quick: 4000, Thorough: 250000}},
 	"C04": {{Scen: "world", Quick: 3000, Thorough: 150000}},
+	"C05": {{Scen: "nav", Quick: 12000, Thorough: 600000}},
+	"C06": {{Scen: "stored", Quick: 5000, Thorough: 300000}},
 	"C11": {{Scen: "world", Quick: 3000, Thorough: 150000}},
 	"C16": {{Scen: "world", Quick: 4000, Thorough: 250000}},
 }
